@@ -147,7 +147,7 @@ theorem old_copy_cstr_refuted :
   constructor <;> decide
 
 /-- the translator recognised the fixed shapes of `copy_cstr` and of `chewing_free` -/
-theorem source_shapes : copyCstrShape = 1 ∧ freeShape = 1 ∧ userphraseIterBorrows = 1 := by decide
+theorem source_shapes : copyCstrShape = 1 ∧ freeShape = 1 ∧ freeRemoves = 1 ∧ userphraseIterBorrows = 1 := by decide
 
 /-! ## 2. Buffers suffice (tables regenerated from the source) -/
 
@@ -285,36 +285,50 @@ example : run init [.upEnumerate 3, .upHasNext, .mutate, .upGet] = .ok
 example : run init [.upEnumerate 3, .upHasNext, .mutate, .upGet, .upGet] = .ub "userphrase_iter" := by decide
 
 /-- **userphrase_iter_safe_partial** + **free_releases** along histories: if no possibly-mutating call separates an
-`enumerate` from a later `has_next`/`get`, and the caller/allocator keep the heap contract (`heapOkRun`: no double
-free, no foreign live pointer, fresh addresses), then the WHOLE history is defined — no use of an invalid object at
+`enumerate` from a later `has_next`/`get`, and the allocator keeps its contract (`heapOkRun`: a fresh block is never at
+the address of a live result; `chewing_free` has no precondition), then the WHOLE history is defined — no use of an invalid object at
 any site — and ends with every live heap result registered under its true kind. -/
 theorem userphrase_iter_safe_partial (ops : List Op)
     (hd : disciplined false ops = true) (hh : heapOkRun init ops = true) :
     ∃ c rs, run init ops = .ok (c, rs) ∧ RegOK c :=
   run_ok ops init false uinv_init regOK_init hd hh
 
-/-- **free_releases**: in a state where every live result is registered with its true kind (`RegOK`, an invariant
-of all contract-respecting histories by the theorem above), `chewing_free` of a live result is defined, releases
-exactly that block (as the kind it was allocated with) and keeps the invariant. -/
+/-- **free_releases**: in a state where the registry and the live results agree (`RegOK`, an invariant of all
+histories by the theorem above), `chewing_free` of a live result is defined, releases exactly that block (as the kind
+it was allocated with), forgets it, and keeps the invariant. -/
 theorem free_releases (c : Ctx) (hr : RegOK c) (a : Nat) (k : Kind) (ha : a ≠ 0) (hl : lookup a c.live = some k) :
     lookup a c.owned = some k ∧
-    ∃ c', step c (.free a) = .ok (c', 0) ∧ lookup a c'.live = none ∧ RegOK c' ∧
+    ∃ c', step c (.free a) = .ok (c', 0) ∧ lookup a c'.live = none ∧ lookup a c'.owned = none ∧ RegOK c' ∧
       ∀ b, b ≠ a → lookup b c'.live = lookup b c.live := by
-  obtain ⟨ho, hka⟩ := hr a k hl
-  refine ⟨ho, ?_⟩
-  simp only [step, if_neg ha, ho, hka, hl, Bool.not_true, Bool.false_eq_true, if_false, if_true]
-  refine ⟨_, rfl, ?_, ?_, ?_⟩
-  · simp [lookup_filter_ne]
-  · intro b k' hb
-    simp only [lookup_filter_ne] at hb
-    by_cases hba : b = a
-    · simp [hba] at hb
-    · simp only [if_neg hba] at hb; exact hr b k' hb
-  · intro b hb; simp [lookup_filter_ne, hb]
+  obtain ⟨c', hs, hr', _, _, hrest, hgone⟩ := freeStep_ok c hr a
+  exact ⟨(hr.1 a k hl).1, c', hs, (hgone ha).1, (hgone ha).2, hr', hrest⟩
 
-/-- a pointer the library never handed out, NULL, or an empty phone sequence: `chewing_free` does nothing -/
-theorem free_foreign_ignored (c : Ctx) (a : Nat) (h : lookup a c.owned = none) : step c (.free a) = .ok (c, 0) := by
-  simp only [step, h]; split <;> rfl
+/-- **chewing_free is total** (after `fix: chewing_free forgets …`): ANY pointer may be passed, any number of times —
+NULL, a foreign pointer, the interior pointer of `chewing_get_selKey`, a pointer released before: it is either a live
+result (released) or ignored; live results at other addresses are untouched. -/
+theorem free_total (c : Ctx) (hr : RegOK c) (a : Nat) :
+    ∃ c', step c (.free a) = .ok (c', 0) ∧ RegOK c' ∧ ∀ b, b ≠ a → lookup b c'.live = lookup b c.live := by
+  obtain ⟨c', hs, hr', _, _, hrest, _⟩ := freeStep_ok c hr a
+  exact ⟨c', hs, hr', hrest⟩
+
+/-- releasing twice is harmless: the second call finds no entry -/
+theorem free_twice (c : Ctx) (hr : RegOK c) (a : Nat) (ha : a ≠ 0) :
+    ∃ c', step c (.free a) = .ok (c', 0) ∧ step c' (.free a) = .ok (c', 0) := by
+  obtain ⟨c', hs, _, _, _, _, hgone⟩ := freeStep_ok c hr a
+  refine ⟨c', hs, ?_⟩
+  simp [step, freeStep, ha, (hgone ha).2]
+
+/-- the code BEFORE that fix (recorded as `fixed:`): entries were never removed, so a pointer that is not a live
+result but whose address equals a released result's — the allocator reuses addresses; `chewing_get_selKey` returns an
+interior pointer of the context that the documentation tells the caller to pass to `chewing_free` — was released
+again: result at 1000 released, then `chewing_free(1000)` for a block the library does not own -/
+theorem stale_registry_refuted :
+    ∃ c, (match stepOld init (.heapGet 1000 .cstring) with
+          | .ok (c1, _) => (match stepOld c1 (.free 1000) with | .ok (c2, _) => some c2 | _ => none)
+          | _ => none) = some c ∧
+      stepOld c (.free 1000) = .ub "free-not-live" := by
+  refine ⟨_, rfl, ?_⟩
+  decide
 
 /-! ## 5. Non-vacuity -/
 
@@ -323,8 +337,8 @@ four kinds interleaved, mutations outside the user-phrase window, heap results o
 def sampleHistory : List Op :=
   [.mutate, .upEnumerate 2, .candEnumerate true 3, .upHasNext, .candHasNext true, .candString 1000, .upGet,
    .intvEnumerate 1, .kbEnumerate 17, .kbString 1008, .free 1000, .upGet, .upHasNext, .mutate, .candString 1000,
-   .heapGet 1016 (.u16slice 4), .heapGet 2 (.u16slice 0), .free 1016, .free 2, .free 77, .intvGet, .intvGet,
-   .upEnumerate 1, .upGet, .free 1008, .free 1000]
+   .heapGet 1016 (.u16slice 4), .heapGet 2 (.u16slice 0), .free 1016, .free 2, .free 77, .free 1016, .free 0,
+   .intvGet, .intvGet, .upEnumerate 1, .upGet, .free 1008, .free 1000, .free 1000]
 
 example : disciplined false sampleHistory = true ∧ heapOkRun init sampleHistory = true := by decide
 
